@@ -31,6 +31,69 @@ def colmeta(snap):
   return out
 
 
+def summaries_with_error_keys(snap):
+  """
+  Summary tables one of whose group-by source columns holds an error value in some source row: the
+  trigger state of the open finding C05/summary_rows_with_error_keys (the live engine keeps the
+  summary rows of keys that turned into errors, a fresh engine has none; a later rollback, undo or
+  table removal then "corrects" them). Returns the set of summary table ids.
+  """
+  T = rows_of(snap, '_grist_Tables')
+  C = rows_of(snap, '_grist_Tables_column')
+  out = set()
+  for tr, t in T.items():
+    st = t.get('summarySourceTable')
+    if not st or st not in T:
+      continue
+    src = T[st]['tableId']
+    if src not in snap:
+      continue
+    for c in C.values():
+      sc = c.get('summarySourceCol')
+      if c['parentId'] == tr and sc and sc in C:
+        vals = snap[src][1].get(C[sc]['colId'])
+        if vals and any(isinstance(v, list) and v and v[0] == 'E' for v in vals):
+          out.add(t['tableId'])
+  return out
+
+
+def triggers_on_error_cells(snap):
+  """
+  Trigger-formula columns (data columns with a formula and recalcDeps) one of whose dependencies is
+  a formula column holding error values: the trigger state of the open finding
+  C01/trigger_on_error_cells (an error cell counts as changed whenever it is recomputed, so such a
+  trigger formula fires or not depending on whether its dependency edges happen to be in place).
+  Returns the set of (table id, column id).
+  """
+  T = rows_of(snap, '_grist_Tables')
+  C = rows_of(snap, '_grist_Tables_column')
+  out = set()
+  for c in C.values():
+    deps = c.get('recalcDeps')
+    if c.get('isFormula') or not c.get('formula') or not isinstance(deps, list) or c['parentId'] not in T:
+      continue
+    tid = T[c['parentId']]['tableId']
+    for d in deps[1:]:
+      dc = C.get(int(d)) if isinstance(d, (int, float)) and not isinstance(d, bool) else None
+      if not dc or not dc.get('isFormula') or dc['parentId'] not in T:
+        continue
+      dt = T[dc['parentId']]['tableId']
+      vals = snap.get(dt, ([], {}))[1].get(dc['colId'])
+      if vals and any(isinstance(v, list) and v and v[0] == 'E' for v in vals):
+        out.add((tid, c['colId']))
+  return out
+
+
+def open_finding_triggers(snap):
+  """Names of the open findings whose trigger state the document is in (DESIGN.md 3.6)."""
+  out = []
+  if summaries_with_error_keys(snap):
+    out.append('summary_rows_with_error_keys')
+  if triggers_on_error_cells(snap):
+    out.append('trigger_on_error_cells')
+  return out
+
+
 # ------------------------------------------------------------------------------------------ C09
 def c09(snap):
   msgs = []
